@@ -285,3 +285,32 @@ def thorough_mdps(gammas=(F(1, 2), F(9, 10), F(1)), nonpositive_when_undiscounte
                          per_state_action_sets=[[('a',)], [('a', 'b')], [('b',)]], **kw)
     yield from chain_mdps(3, list(gammas), [F(-1), F(0), F(1)])
     yield from (it for i, it in enumerate(chain_mdps(4, g2, [F(-1), F(0)])) if i % 2 == 0)
+
+
+def with_zero_entry(spec_item, mode):
+    """Append a zero-probability entry to the first outcome distribution of the first state that is in
+    the initial support: pointing to an existing state (inside) or to a fresh extra state (outside)."""
+    tag, n, T, ab, init, g = spec_item
+    if mode == 'none':
+        return spec_item, None
+    if mode == 'zero_init':
+        # a zero-probability entry in the INITIAL distribution, for a fresh state nothing leads to: not part of the support
+        T2 = tuple(T) + ((('a', ((n, F(1)),), F(0)),),)
+        return ('mdp', n + 1, T2, ab, tuple(init) + ((n, F(0)),), g), n
+    s0 = min(s for s, p in init if p > 0)
+    if not T[s0]:
+        return spec_item, None
+    a, dist, rew = T[s0][0]
+    if mode == 'inside':
+        tgt = next((t for t in range(n) if t not in [ns for ns, _ in dist]), None)
+        if tgt is None:
+            return spec_item, None
+        n2, T2 = n, list(T)
+    else:
+        tgt = n
+        n2 = n + 1
+        T2 = list(T) + [(('a', ((n, F(1)),), F(0)),)]
+    new_dist = dist + ((tgt, F(0)),)
+    new_rew = (tuple(rew for _ in dist) if not isinstance(rew, tuple) else rew) + (F(-5),)
+    T2[s0] = ((a, new_dist, new_rew),) + tuple(T[s0][1:])
+    return ('mdp', n2, tuple(T2), ab, init, g), tgt
